@@ -27,16 +27,18 @@ def fuzz(ctx):
     res = dict(evaluations=0, hashes=[], classes={}, counters={}, samples=[], inconclusive=[], notes=[], failures=[])
     env = dict(env)
     env["ASAN_OPTIONS"] = env.get("ASAN_OPTIONS", "") + ":max_allocation_size_mb=64"
+    env["VF_SCRATCH"] = rundir
     # generator-made seed corpus
     seeddir = os.path.join(rundir, "fuzz_seeds")
     os.makedirs(seeddir, exist_ok=True)
     e2 = dict(env, VF_SEED_DIR=seeddir)
-    _run([builder.exe("mutread"), "--prop", "c03_seeds", "--cases", "60", "--seed", str(seed), "--size", "20", "--out", os.path.join(rundir, "seedgen")], e2, rundir, 300)
+    if job.get("seed_corpus", True):
+        _run([builder.exe("mutread"), "--prop", "c03_seeds", "--cases", "60", "--seed", str(seed), "--size", "20", "--out", os.path.join(rundir, "seedgen")], e2, rundir, 300)
     nseeds = len(os.listdir(seeddir))
     res["counters"]["fuzz_seed_files"] = nseeds
     procs = []
     for target in job["targets"]:
-        for corpus_kind in ("empty", "seeded"):
+        for corpus_kind in (("empty", "seeded") if job.get("seed_corpus", True) else ("empty",)):
             for k in range(nproc_per):
                 cdir = os.path.join(rundir, "corpus_%s_%s_%d" % (target, corpus_kind, k))
                 adir = os.path.join(rundir, "art_%s_%s_%d" % (target, corpus_kind, k))
@@ -121,7 +123,7 @@ def replay(ctx):
     path, builder, env = ctx["path"], ctx["builder"], ctx["env"]
     base = os.path.basename(path)
     target = None
-    for t in ("fuzz_reader", "fuzz_decoder"):
+    for t in ("fuzz_reader", "fuzz_decoder", "fuzz_rewrite"):
         if t in base:
             target = t
     if target is None:
